@@ -600,11 +600,166 @@ Section Explain.
       + destruct input as [|s r]; [congruence|]. destruct r; reflexivity.
   Qed.
 
+  (* ---- chained contextual subtables (GSUB6) ---- *)
+  Lemma LxH_bar : LxH k_bar (fun l => [t_bar l]) 0.   Proof. lit. Qed.
+  Lemma Lx_sp_bar : Lx [32; 124] (fun l => [t_bar l]) 0.
+  Proof.
+    intros line rest Hr. cbn [app lexm]. change (lstep U LStart line 32) with (@nil token, LStart, line).
+    cbn [app lexm]. change (lstep U LStart line 124) with (@nil token, LBar, line). cbn [app].
+    rewrite (lexm_flush U LBar line _ rest eq_refl Hr). rewrite N.add_0_r. reflexivity.
+  Qed.
+
+  Lemma gids_ok_rev : forall gs, gids_ok F gs = true -> gids_ok F (rev gs) = true.
+  Proof.
+    intros gs H. unfold gids_ok in *. rewrite forallb_forall in *. intros x Hx. apply H. apply in_rev. exact Hx.
+  Qed.
+
+  Definition crule1_ok (e : N * chain_rule) : Prop :=
+    fst e < num_glyphs F /\ gids_ok F (fst (fst (fst (snd e)))) = true
+    /\ gids_ok F (snd (fst (fst (snd e)))) = true /\ gids_ok F (snd (fst (snd e))) = true.
+
+  Lemma Lx_chain1 : forall mm first, Forall crule1_ok mm ->
+    Lx (explain_chain1 U F mm first) (chain1_toks U F mm first) 0 /\ rest_ok (explain_chain1 U F mm first).
+  Proof.
+    induction mm as [|[g [[[bt inp] la] acts]] mm IH]; intros first Hm.
+    - split; [apply Lx_nil|exact I].
+    - inversion Hm as [|? ? Hg Hmm]; subst. destruct Hg as (Hg & Hb & Hi & Hl). cbn [fst snd] in *.
+      destruct (IH false Hmm) as [IH1 IH2]. cbn [explain_chain1 chain1_toks]. split.
+      + eapply Lx_ext.
+        * apply (LxH_app_Lx U (if first then [32] else k_comma) (fun l => if first then [] else [t_comma l]) 0);
+            [destruct first; [apply LxH_sp|apply LxH_comma]|].
+          apply Lx_app; [apply Lx_glyph_list; apply gids_ok_rev; exact Hb| |reflexivity].
+          apply LxH_app_Lx; [apply LxH_bar|].
+          apply Lx_app; [apply (Lx_glyph_list (g :: inp)); unfold gids_ok in *; cbn [forallb];
+                         rewrite Hi; assert (E : (g <? num_glyphs F) = true) by lia; rewrite E; reflexivity
+                        | |reflexivity].
+          apply LxH_app_Lx; [apply LxH_bar|].
+          apply Lx_app; [apply Lx_glyph_list; exact Hl| |reflexivity].
+          apply LxH_app_Lx; [apply LxH_arrow|].
+          apply Lx_app; [apply Lx_nested|exact IH1|exact IH2].
+        * intros l. cbn [app]. rewrite !N.add_0_r. rewrite <- ?app_assoc. cbn [app]. destruct first; reflexivity.
+        * reflexivity.
+      + destruct first; reflexivity.
+  Qed.
+
+  Lemma Lx_chain2 : forall mm first,
+    Lx (explain_chain2 mm first) (chain2_toks mm first) 0 /\ (first = false -> rest_ok (explain_chain2 mm first)).
+  Proof.
+    induction mm as [|[c [[[bt inp] la] acts]] mm IH]; intros first.
+    - split; [apply Lx_nil|intros; exact I].
+    - destruct (IH false) as [IH1 IH2]. specialize (IH2 eq_refl). cbn [explain_chain2 chain2_toks]. split.
+      + eapply Lx_ext.
+        * apply (LxH_app_Lx U (if first then [] else [44]) (fun l => if first then [] else [t_comma l]) 0);
+            [destruct first; [apply LxH_nil|apply LxH_comma1]|].
+          apply LxH_app_Lx; [apply LxH_class_list|].
+          apply LxH_app_Lx; [apply LxH_bar|].
+          apply LxH_app_Lx; [apply LxH_class_list|].
+          apply LxH_app_Lx; [apply LxH_bar|].
+          apply LxH_app_Lx; [apply LxH_class_list|].
+          apply LxH_app_Lx; [apply LxH_arrow|].
+          apply Lx_app; [apply Lx_nested|exact IH1|exact IH2].
+        * intros l. cbn [app]. rewrite !N.add_0_r. unfold cls_toks. rewrite <- ?app_assoc. cbn [app].
+          destruct first; reflexivity.
+        * reflexivity.
+      + intros E. subst. reflexivity.
+  Qed.
+
+  Lemma LxH_sp_sets : forall sets, Forall (fun s => gids_ok F s = true) sets ->
+    LxH (sp_sets U F sets) (sets_toks U F sets) 0.
+  Proof.
+    induction sets as [|s r IH]; intros H; [apply LxH_nil|].
+    inversion H as [|? ? H1 H2]; subst. unfold sp_sets, sets_toks in *. cbn [map concat].
+    change (32 :: write_glyph_set U F s) with ([32] ++ write_glyph_set U F s). rewrite <- app_assoc.
+    eapply LxH_ext.
+    - apply LxH_app; [apply LxH_sp|]. apply LxH_app; [apply LxH_glyph_set; exact H1|apply IH; exact H2].
+    - intros l. cbn [app]. rewrite !N.add_0_r. reflexivity.
+    - reflexivity.
+  Qed.
+
+  Lemma LxH_join_sets : forall sets, Forall (fun s => gids_ok F s = true) sets ->
+    LxH (join_sets U F sets) (sets_toks U F sets) 0.
+  Proof.
+    intros sets H. destruct sets as [|s r]; [apply LxH_nil|]. apply LxH_sets; [discriminate|exact H].
+  Qed.
+
+  Lemma sets_ok_forall : forall sets, forallb (fun s => ascendingb s && gids_ok F s) sets = true ->
+    Forall (fun s => gids_ok F s = true) sets.
+  Proof.
+    intros sets H. apply forallb_Forall in H. eapply Forall_impl; [|exact H]. cbn. intros a Hx.
+    apply andb_true_iff in Hx. tauto.
+  Qed.
+
+  Lemma classes_wf_forall : forall classes, classes_wf F classes = true ->
+    Forall (fun gl => gids_ok F gl = true) classes.
+  Proof.
+    intros classes H. unfold classes_wf in H. apply andb_true_iff in H. destruct H as [H _].
+    apply forallb_Forall in H. eapply Forall_impl; [|exact H]. cbn. intros a Hx.
+    apply andb_true_iff in Hx. tauto.
+  Qed.
+
+  Lemma flat_index_nonempty : forall {B} (rules : list (list B)) i,
+    negb (is_nil (concat rules)) = true -> flat_rules (index_from i rules) <> [].
+  Proof.
+    intros B rules. induction rules as [|rs r IH]; intros i Hn; [discriminate|].
+    cbn [index_from]. unfold flat_rules. cbn [map concat fst snd]. destruct rs as [|x rs'].
+    - cbn [map app]. apply IH. exact Hn.
+    - discriminate.
+  Qed.
+
+  Lemma Lx_chain : forall h, chain_wf F h = true ->
+    Lx (explain_chain U F h) (chain_toks U F h) (chain_dl h) /\ rest_ok (explain_chain U F h).
+  Proof.
+    intros h W. destruct h as [cov rules|cov btc inc lac rules|bt input la acts]; cbn [chain_wf] in W; split_wf W;
+      unfold explain_chain, chain_toks, chain_dl.
+    - (* Chain1 *)
+      assert (Hc : Forall (fun g => g < num_glyphs F) cov) by (apply gids_ok_forall; assumption).
+      apply Lx_chain1.
+      match goal with Hx : forallb _ rules = true |- _ => apply forallb_Forall in Hx; rename Hx into W0 end.
+      apply Forall_forall. intros [k r] Hin. unfold flat_rules in Hin.
+      apply in_concat in Hin. destruct Hin as (grp & Hgrp & Hin). apply in_map_iff in Hgrp.
+      destruct Hgrp as ([k' rs] & E & Hcb). subst grp. cbn [fst snd] in Hin.
+      apply in_map_iff in Hin. destruct Hin as (r' & E & Hr). inversion E; subst; clear E.
+      pose proof (in_combine_l _ _ _ _ Hcb) as Hk. pose proof (in_combine_r _ _ _ _ Hcb) as Hrs.
+      rewrite Forall_forall in Hc, W0. specialize (Hc _ Hk). specialize (W0 _ Hrs). cbn in W0.
+      apply andb_true_iff in W0. destruct W0 as [_ W0]. rewrite forallb_forall in W0.
+      specialize (W0 _ Hr). split_wf W0. unfold crule1_ok. cbn [fst snd]. auto.
+    - (* Chain2 *)
+      destruct (Lx_chain2 (flat_rules (index_from 0 rules)) true) as [R1 _].
+      split.
+      + eapply Lx_ext.
+        * apply LxH_app_Lx; [apply (LxH_defcls k_backtrackclass btc 1); [reflexivity|apply classes_wf_forall; assumption]|].
+          apply LxH_app_Lx; [apply (LxH_defcls k_inputclass inc 1); [reflexivity|apply classes_wf_forall; assumption]|].
+          apply LxH_app_Lx; [apply (LxH_defcls k_lookaheadclass lac 1); [reflexivity|apply classes_wf_forall; assumption]|].
+          apply LxH_app_Lx; [apply LxH_slash|].
+          apply Lx_app; [apply Lx_glyph_list; assumption| |exact hs_slash].
+          apply LxH_app_Lx; [apply LxH_slash|exact R1].
+        * intros l. cbn [app]. rewrite ?N.add_0_r. rewrite <- ?app_assoc. cbn [app]. rewrite ?N.add_assoc. reflexivity.
+        * lia.
+      + destruct btc; [destruct inc; [destruct lac|]|]; reflexivity.
+    - (* Chain3 *)
+      assert (Hb : Forall (fun s => gids_ok F s = true) (rev bt)).
+      { apply Forall_rev. apply sets_ok_forall; assumption. }
+      assert (Hi : Forall (fun s => gids_ok F s = true) input) by (apply sets_ok_forall; assumption).
+      assert (Hl : Forall (fun s => gids_ok F s = true) la) by (apply sets_ok_forall; assumption).
+      assert (Hn : input <> []) by (destruct input; [discriminate|congruence]).
+      split.
+      + eapply Lx_ext.
+        * apply LxH_app_Lx; [apply LxH_join_sets; exact Hb|].
+          apply Lx_app; [apply Lx_sp_bar| |destruct input; [congruence|reflexivity]].
+          apply LxH_app_Lx; [apply LxH_sp_sets; exact Hi|].
+          apply Lx_app; [apply Lx_sp_bar| |destruct la; reflexivity].
+          apply LxH_app_Lx; [apply LxH_sp_sets; exact Hl|].
+          apply LxH_app_Lx; [apply LxH_arrow|apply Lx_nested].
+        * intros l. cbn [app]. rewrite !N.add_0_r. reflexivity.
+        * reflexivity.
+      + destruct (rev bt) as [|s r]; [reflexivity|]. destruct r; reflexivity.
+  Qed.
+
   Lemma Lx_subtable : forall s, sub_wf F s = true ->
     Lx (explain_subtable U F s) (sub_toks U F s) (sub_dl s) /\ rest_ok (explain_subtable U F s).
   Proof.
     intros s W. destruct s as [h|c|cov delta|cov subst|cov repl|cov alts|cov repl|cov adj|cov adj];
-      [discriminate W|apply Lx_ctx; exact W|..];
+      [apply Lx_chain; exact W|apply Lx_ctx; exact W|..];
       cbn [sub_wf] in W; split_wf W; unfold explain_subtable, sub_toks; cbv beta iota zeta;
       try (assert (Ha : ascending cov) by (apply ascendingb_spec; assumption));
       try (assert (Hc : Forall (fun g => g < num_glyphs F) cov) by (apply gids_ok_forall; assumption)).
@@ -792,6 +947,43 @@ Section Explain.
   Proof.
     intros ll H. unfold M_lex. rewrite <- (app_nil_r (M_explain_gsub U F ll)).
     rewrite (LxH_gsub5 ll H 1 []). reflexivity.
+  Qed.
+
+  Lemma chain_lookup_subs : forall lk, chain_lookup_wf F lk = true ->
+    flags_ok (l_flags lk) = true /\ Forall (fun s => sub_wf F s = true) (l_subs lk).
+  Proof.
+    intros lk H. unfold chain_lookup_wf in H. split_wf H. split; auto.
+    match goal with Hx : forallb _ (l_subs lk) = true |- _ => apply forallb_Forall in Hx;
+      eapply Forall_impl; [|exact Hx] end.
+    cbn. intros s Hs. destruct s; try discriminate. exact Hs.
+  Qed.
+
+  Lemma gsub6_lookup_subs : forall lk, gsub_lookup_wf6 F lk = true ->
+    flags_ok (l_flags lk) = true /\ Forall (fun s => sub_wf F s = true) (l_subs lk).
+  Proof.
+    intros lk H. unfold gsub_lookup_wf6 in H. apply orb_true_iff in H.
+    destruct H; [apply gsub5_lookup_subs|apply chain_lookup_subs]; auto.
+  Qed.
+
+  Lemma LxH_gsub6 : forall ll, Forall (fun lk => gsub_lookup_wf6 F lk = true) ll ->
+    LxH (M_explain_gsub U F ll) (gsub_toks U F ll) (gsub_dl ll).
+  Proof.
+    induction ll as [|lk r IH]; intros H.
+    - apply LxH_nil.
+    - inversion H as [|? ? Hlk Hr]; subst. destruct (gsub6_lookup_subs lk Hlk) as [Hf Hs].
+      unfold M_explain_gsub. cbn [map concat]. fold (M_explain_gsub U F r).
+      eapply LxH_ext.
+      + apply LxH_app; [|apply IH; exact Hr].
+        apply Lx_app_LxH; [apply Lx_lookup; auto|apply LxH_nl|reflexivity|discriminate].
+      + intros l. cbn [gsub_toks]. rewrite <- !app_assoc. cbn [app]. rewrite N.add_assoc. reflexivity.
+      + cbn [gsub_dl]. lia.
+  Qed.
+
+  Lemma lex_explain_gsub6 : forall ll, Forall (fun lk => gsub_lookup_wf6 F lk = true) ll ->
+    M_lex U (M_explain_gsub U F ll) = gsub_toks U F ll 1 ++ [tk TEOF [] (1 + gsub_dl ll)].
+  Proof.
+    intros ll H. unfold M_lex. rewrite <- (app_nil_r (M_explain_gsub U F ll)).
+    rewrite (LxH_gsub6 ll H 1 []). reflexivity.
   Qed.
 
   Lemma Lx_gpos : forall ll, Forall (fun lk => gpos_lookup_wf F lk = true) ll ->
